@@ -24,7 +24,7 @@ EXHAUSTIVE = False
 RULE = (
     "generated modules (failing line first / middle / last in the file, inside nested and tab-indented functions, after "
     "multi-line strings, bracketed and backslash continuations, with comments, non-ASCII, markup-like text, very long lines; "
-    "empty file; file deleted after import; exec-compiled source-less code; failure while importing) x statements {raise "
+    "empty file; file deleted after import; module under a path that spells style markup; exec-compiled source-less code under 10 file names (markup-like: '</error>', '<b>', 'a</info>b', ...), as the failing or as a middle frame; failure while importing) x statements {raise "
     "ValueError/KeyError/custom, 1/0, assert, raise ... from} x messages {plain, multi-line, non-ASCII, balanced / opening / "
     "closing / crossed style tags, escaped tag, 5 kB, empty} x exception object {as raised; every third case re-raised as one of 19 unusual types: providing a solution (5 title/description/link texts, rendered with a solution-provider repository), being a solution, KeyboardInterrupt / SystemExit subclasses, ExceptionGroup, OSError with file name, UnicodeDecodeError, SyntaxError, class names made with type() (markup-like, non-ASCII), overridden __str__, with notes, without / with two arguments} x recursion depth 1-60 (direct and mutual) x verbosity x UTF-8 "
     "on/off x simple/full x ANSI/plain x ignore pattern. Clauses: render never raises; class name and message present "
@@ -161,9 +161,14 @@ class Env(object):
         self.relay = importlib.util.module_from_spec(spec)
         spec.loader.exec_module(self.relay)
 
-    def write_module(self, source):
+    def write_module(self, source, odd_path=False):
         self.counter += 1
         path = os.path.join(self.workdir, "m%06d_%d.py" % (self.counter, os.getpid()))
+        if odd_path:
+            # a directory and a file name that together spell style markup in the path: .../a</info>b_<n>.py, .../x<b>/m.py
+            d, f = [("a<", "info>b_%06d.py"), ("x<b>", "m%06d.py"), ("<error>", "e%06d.py"), ("y<", "error>%06d.py"), ("z<", ">%06d.py")][self.counter % 5]
+            os.makedirs(os.path.join(self.workdir, d), exist_ok=True)
+            path = os.path.join(self.workdir, d, f % self.counter)
         with open(path, "w", encoding="utf-8") as f:
             f.write(source)
         return path
@@ -171,8 +176,8 @@ class Env(object):
 
 def raise_from(env, mod_case, message, depth, mode, rng):
     """Runs the generated module so that it fails; returns (exception, path, source_available)."""
-    path = env.write_module(mod_case["source"])
-    name = "c20_%s" % os.path.basename(path)[:-3]
+    path = env.write_module(mod_case["source"], odd_path=(mode == "odd-path"))
+    name = "c20_m%d" % env.counter
     spec = importlib.util.spec_from_file_location(name, path)
     mod = importlib.util.module_from_spec(spec)
     available = True
@@ -220,12 +225,22 @@ def raise_from(env, mod_case, message, depth, mode, rng):
     return None, path, available
 
 
-def exec_sourceless(message, kind):
-    src = "def fail(msg):\n    raise %s(msg)\n" % kind
+SOURCELESS_NAMES = ["<generated-no-file>", "<string>", "</error>", "<b>", "a</info>b", "</>", "<fg=red>x", "no-such-file.py", "<info>", "ends\\"]
+
+
+def exec_sourceless(message, kind, filename="<generated-no-file>", middle=False):
+    src = "def fail(msg):\n    raise %s(msg)\n\n\ndef relay(cb, *a):\n    return cb(*a)\n" % kind
     ns = {}
-    exec(compile(src, "<generated-no-file>", "exec"), ns)
+    exec(compile(src, filename, "exec"), ns)
+
+    def inner(m):
+        raise ValueError(m)
+
     try:
-        ns["fail"](message)
+        if middle:
+            ns["relay"](inner, message)  # the source-less frame is not the failing one
+        else:
+            ns["fail"](message)
     except BaseException as e:
         return e
     return None
@@ -471,7 +486,7 @@ def run_renders(sh, env, n):
         mc = gen_module(rng)
         msg_class = rng.choice(sorted(MESSAGES))
         message = MESSAGES[msg_class]
-        mode = rng.choice(["plain", "plain", "relay", "mutual", "deleted", "two-sites", "two-sites"])
+        mode = rng.choice(["plain", "plain", "relay", "mutual", "deleted", "two-sites", "two-sites", "odd-path"])
         depth = rng.choice([0, 1, 1, 2, 5, 30, 60])
         case = dict(kind="module", source=mc["source"], shape=mc["shape"], msg_class=msg_class, mode=mode, depth=depth, ansi=rng.random() < 0.5, utf8=rng.random() < 0.7,
                     verbosities=[rng.choice([0, 1, 2, 4])] if i % 4 else [0, 1, 2, 4])
@@ -502,9 +517,14 @@ def run_renders(sh, env, n):
         if i % 10 == 0:
             # source-less code and empty / odd files
             kind = rng.choice(["ValueError", "KeyError", "RuntimeError"])
-            e2 = exec_sourceless(message, kind)
-            c2 = dict(kind="sourceless", shape=("exec", kind), msg_class=msg_class, mode="exec", depth=0, ansi=case["ansi"], utf8=case["utf8"], verbosities=[0, 1, 2, 4], source="")
-            judge_render(sh, env, e2, c2, None, None, "<generated-no-file>", False)
+            fname = SOURCELESS_NAMES[(i // 10) % len(SOURCELESS_NAMES)]
+            middle = (i // 10) % 3 == 2
+            if middle:
+                kind = "ValueError"
+            e2 = exec_sourceless(message, kind, fname, middle)
+            c2 = dict(kind="sourceless", shape=("exec", kind, fname, middle), msg_class=msg_class, mode="exec", depth=0, ansi=case["ansi"], utf8=case["utf8"], verbosities=[0, 1, 2, 4],
+                      source="", filename=fname, sourceless_frame="middle" if middle else "last")
+            judge_render(sh, env, e2, c2, None, None, fname, False)
             sh.count("sourceless_cases")
         if i % 25 == 0:
             judge_ignore(sh, env, rng, case)
